@@ -132,7 +132,7 @@ def order_cases(ndies, maxunits):
 
 def _order_worker(d, chunk, extra):
     """Caches keyed by unit must not depend on the order in which units are first visited: for every permutation of
-    the units, on a freshly opened file, ask for the parent of every DIE unit by unit in that order."""
+    the units, on a freshly opened file, ask for the parent of every DIE and whether it is a root, unit by unit in that order."""
     import zwmodel
     os.makedirs(dwbattery.DWDIR, exist_ok=True)
     path = os.path.join(dwbattery.DWDIR, "c02o-%d.o" % os.getpid())
@@ -145,14 +145,14 @@ def _order_worker(d, chunk, extra):
         for perm in itertools.permutations(range(len(shape))):
             for raw in (True, False):
                 sel = ", ".join("%sunit (pos == %d)" % ("raw " if raw else "", k) for k in perm)
-                q = "(%s) entry (|E| [E offset] [E parent offset] add)" % sel
+                q = "(%s) entry (|E| [E offset] [E parent offset] add [E ?root offset] add)" % sel
                 rs = d.batch(["open id=po path=" + drv.hx(path), drv.run_cmd(q, i="po", lim=200), "close id=po"])
                 r = rs[1]
                 out["queries"] += 1
                 exp = []
                 for k in perm:
                     for die in view.units[k].dies:
-                        exp.append("[" + ",".join("c:Dwarf_Off:%d@*" % x.offset for x in ([die] + ([die.parent] if die.parent is not None else []))) + "]@*")
+                        exp.append("[" + ",".join("c:Dwarf_Off:%d@*" % x.offset for x in ([die] + ([die.parent] if die.parent is not None else [die]))) + "]@*")
                 got = [zwmodel.wild(x) for x in r.results()]
                 out["results"] += len(got)
                 if r.crash or got != exp or len(r.lines) != len(exp):
